@@ -17,7 +17,10 @@ def run(patch):
         for f in glob.glob(d+"/gmars"): os.remove(f)
         alarms=[]
         for p in props:
-            out=subprocess.run(["bin/gmarslint","-prop",p,"-root",d,"-evidence",d+"/.ev","-known","known_findings.json"],capture_output=True,text=True)
+            try:
+                out=subprocess.run(["bin/gmarslint","-prop",p,"-root",d,"-evidence",d+"/.ev","-known","known_findings.json"],capture_output=True,text=True,timeout=300)
+            except subprocess.TimeoutExpired:
+                alarms.append(p+": TIMEOUT (300 s)"); continue
             if out.returncode!=0:
                 lines=[l for l in out.stdout.splitlines() if re.match(r"^\S+: \[",l)]
                 alarms.append(p+": "+(lines[0][:260] if lines else out.stdout[-200:]))
